@@ -6,7 +6,8 @@ from hv.worlds import profile
 hprop.install(globals(), hprop.HistoryProperty(
     prop="C16",
     monitors=lambda: [C16Immutable()],
-    profile=profile(nv=(2, 6), n_requests=(5, 30), socs=[0.003, 0.05, 0.3, 0.8, 0.97], builtin=[True, True, False], nets=["hav", "gen", "gen", "denver"]),
+    profile=profile(nv=(2, 6), n_requests=(5, 30), socs=[0.003, 0.05, 0.3, 0.8, 0.95, 0.97, 0.985], builtin=[True, True, False], nets=["hav", "gen", "gen", "denver"],
+                    human_share=[False, False, True], max_plugs=1),
     nontrivial=lambda f: {"five_rich_steps_after_retain", "branched"} <= f,
     rule=("stateful histories over generated worlds of every kind; rule `retain` keeps a reference to the current SimulationState (up to 8 per "
           "case) with its deep canonical fingerprint (recursive walk over NamedTuples, dataclasses, immutables.Map, tuples, frozensets, enums, "
@@ -14,14 +15,15 @@ hprop.install(globals(), hprop.HistoryProperty(
           "state's fingerprint must be unchanged; rule `branch` runs StepSimulation.update twice on a retained state with the same scripted "
           "controller queues and the built-in generators, with a what-if sweep in between (from the current and the other retained states every vehicle "
           "is sent to stations, bases and requests, one instruction at a time on the side, up to 120 applications): results equal modulo instance ids, "
-          "and equal to the result recorded when the state was retained. non-trivial = retained state followed by >=5 steps "
+          "and equal to the result recorded when the state was retained; half of the branches instead run the saved state forward 3, 6 or 10 steps, twice, "
+          "and compare the end results. non-trivial = retained state followed by >=5 steps "
           "that each changed vehicles, a station and a request, and >=1 branch; distinct = sha1(world, op log)"),
     assumptions=hprop.COMMON_ASSUMPTIONS + [
         "'the same step twice' is asserted for the step function on a saved state (StepSimulation.update), not for re-reading an input file: the file readers inside Update are cursors by design",
         "only code paths the histories execute are observed",
     ],
-    quick=(16, 50, 40), thorough=(16, 1200, 70), probes=True, retains=True,
+    quick=(16, 70, 40), thorough=(16, 1500, 70), probes=True, retains=True,
     # plugs are throttled co-simulation style as well: two effective powers for one vehicle type exercise shared model tables
-    instr_bias={"throttle": True},
+    instr_bias={"throttle": True, "rush": True},
 ))
 FLOORS = {"quick": {"retained_state_checks": 4000, "branches": 190}, "thorough": {"branches": 5000}}
